@@ -923,7 +923,9 @@ class SyncState:  # pylint: disable=too-many-instance-attributes, too-many-publi
 
     def lookup_deletion(self, content_hash, side):
         for ent in self.get_all():
-            if ent[side].hash == content_hash and ent.is_deletion(side):
+            if ent[side].otype != FILE or ent[side].hash != content_hash:
+                continue
+            if ent.is_deletion(side):
                 return ent
         return None
 
